@@ -21,6 +21,9 @@ type MRes struct {
 
 var methodCache = map[reflect.Type][]int{}
 
+// shallowSlices: render slices of object pointers as a count (set by checks that visit the elements themselves)
+var shallowSlices = false
+
 func zeroArgMethods(t reflect.Type) []int {
 	if idx, ok := methodCache[t]; ok {
 		return idx
@@ -67,9 +70,12 @@ func render(v reflect.Value) string {
 		if _, ok := t.MethodByName("String"); ok {
 			return t.Elem().Name() + "{" + safeCallString(v, "String") + "}"
 		}
-		// generic: render exported-getter view
-		return t.Elem().Name() + "{" + digestObject(v.Interface(), nil) + "}"
+		// generic: shallow view (getters returning basic kinds only; no recursion into object graphs)
+		return t.Elem().Name() + "{" + shallowDigest(v) + "}"
 	case reflect.Slice, reflect.Array:
+		if v.Type().Elem().Kind() == reflect.Ptr && v.Type().Elem().Elem().Kind() == reflect.Struct && shallowSlices {
+			return fmt.Sprintf("[%d x %s]", v.Len(), v.Type().Elem().Elem().Name())
+		}
 		var parts []string
 		for i := 0; i < v.Len(); i++ {
 			parts = append(parts, render(v.Index(i)))
@@ -169,3 +175,20 @@ func firstDiff(a, b string) string {
 }
 
 func render1(x interface{}) string { return render(reflect.ValueOf(x)) }
+
+func shallowDigest(v reflect.Value) string {
+	t := v.Type()
+	var sb strings.Builder
+	for _, i := range zeroArgMethods(t) {
+		m := t.Method(i)
+		if m.Type.NumOut() != 1 {
+			continue
+		}
+		switch m.Type.Out(0).Kind() {
+		case reflect.Int, reflect.String, reflect.Bool, reflect.Float64:
+			r := callOne(v, i, m.Name)
+			sb.WriteString(m.Name + "=" + r.Out + ";")
+		}
+	}
+	return sb.String()
+}
